@@ -122,6 +122,24 @@ CHECKS = {
              'reply sequence and the callback/hand-off sequence of all deliveries of a stream to be equal.',
         design='5/C09', technique='TLA+ framing automaton + TLC metamorphic bundle validation across segmentations of real sessions',
         note='Known finding D15 (size limit verdict depends on segmentation). ' + TB),
+    'C11': dict(
+        level='model_checking',
+        text='RelayObs (TLA+) reconstructs from the scripted downstream what was positively accepted and which failure events '
+             'occurred; every attempt of the real StaticSmtpRelay / StaticLmtpRelay (single and paired deviating stages, full RCPT '
+             'and LMTP end-of-data class products, PIPELINING on/off, 1-3 recipients) and of the real pipe relays (child '
+             'processes with every exit status / output shape, both per-recipient modes, Maildrop and Dovecot) is validated by '
+             'TLC: delivered => accepted, failure class within the produced failure events, result or relay error only.',
+        design='5/C11', technique='TLA+ observer of downstream/relay events, TLC trace validation of enumerated downstream scripts',
+        note='HTTP and MX relays are not driven yet (DESIGN.md section 8). Downstream is an in-memory scripted peer. ' + TB),
+    'C14': dict(
+        level='model_checking',
+        text='Server side: sessions stalled or trickled at every stage under virtual time, the deadline computed from the statement '
+             '(last completed command + command timeout; 354 + data timeout), validated by TLC (closed by the deadline, last '
+             'words 421). Relay side: the downstream goes silent at connect and at every protocol stage, PIPELINING on/off, SMTP '
+             'and LMTP, plus a pipe child outliving its timeout; TLC requires the attempt to end by the step timeout with a '
+             'transient result.',
+        design='5/C14', technique='virtual-time stall enumeration on real server and relay, TLC trace validation against TLA+ observers',
+        note='Every gevent Timeout is virtualised (harness/vt.py). HTTP relay stalls are not driven yet. ' + TB),
 }
 
 HOOK_COMMITS = []
